@@ -205,7 +205,11 @@ def run_history(ctx, rng, tgen, rec, idx):
         n = 9 if d == 3 else n
     precision = 10 ** rng.uniform(-12, -2)
     max_bond = rng.choice([1, 2, 3, 4, 8, 16, 64, rng.randint(1, 64)])
-    start = rng.choice(["random", "random", "random_normalised", "make", "canonical"])
+    start = rng.choice(["random", "random", "random_normalised", "make", "canonical", "product", "product"])
+    if start == "product":       # bond-dimension-1 chains of UN-normalised user factors, centre None; often squeezed to cap 1
+        chimax = 1
+        if rng.random() < 0.5:
+            max_bond = 1
     if start == "make":
         m = MPS.make(n, precision=precision, max_bond_dim=max_bond, num_gpus_to_use=0, eigenstates=eig(d))
     else:
@@ -223,6 +227,8 @@ def run_history(ctx, rng, tgen, rec, idx):
     nops = rng.randint(1, 8)
     names = ["orth", "orth", "trunc", "trunc", "add", "scale", "apply", "expect_batch", "norm", "sample", "entropy",
              "corr", "apply_to", "inner"]
+    if start in ("product", "make"):   # product-state histories: non-unitary apply(k), truncate, norm dominate
+        names = names + ["apply", "trunc", "norm"] * 3
     bad = {}
 
     def fail(what, key, extra=None):
